@@ -195,6 +195,29 @@ Qed.
 Definition delivered_stream (ms : list msg) : list msg :=
   map wire (filter (fun m => negb (is_blob_msg m)) ms) ++ map wire (filter is_blob_msg ms).
 
+(* the ordinary messages of the operation come before its BLOB updates: then the order in which the client
+   takes them from its two connections is the order in which they were published *)
+Definition ctl_then_blob (ms : list msg) : Prop :=
+  exists a b, ms = a ++ b /\ Forall (fun m => is_blob_msg m = false) a /\ Forall (fun m => is_blob_msg m = true) b.
+
+Lemma filter_all_true {A} (p : A -> bool) l : Forall (fun x => p x = true) l -> filter p l = l.
+Proof. induction 1 as [|x l Hx _ IH]; [reflexivity|]. cbn [filter]. now rewrite Hx, IH. Qed.
+Lemma filter_all_false {A} (p : A -> bool) l : Forall (fun x => p x = false) l -> filter p l = [].
+Proof. induction 1 as [|x l Hx _ IH]; [reflexivity|]. cbn [filter]. now rewrite Hx, IH. Qed.
+
+Lemma delivered_stream_ordered ms : ctl_then_blob ms -> delivered_stream ms = map wire ms.
+Proof.
+  intros (a & b & -> & Ha & Hb). unfold delivered_stream. rewrite !filter_app.
+  rewrite (filter_all_true (fun m => negb (is_blob_msg m)) a) by (eapply Forall_impl; [|exact Ha]; intros m Hm; cbn; now rewrite Hm).
+  rewrite (filter_all_false (fun m => negb (is_blob_msg m)) b) by (eapply Forall_impl; [|exact Hb]; intros m Hm; cbn; now rewrite Hm).
+  rewrite (filter_all_false is_blob_msg a Ha), (filter_all_true is_blob_msg b Hb). rewrite app_nil_r. cbn [app]. now rewrite map_app.
+Qed.
+
+Lemma no_blob_is_ordered ms : Forall (fun m => is_blob_msg m = false) ms -> ctl_then_blob ms.
+Proof. intro H. exists ms, []. rewrite app_nil_r. auto. Qed.
+Lemma only_blob_is_ordered ms : Forall (fun m => is_blob_msg m = true) ms -> ctl_then_blob ms.
+Proof. intro H. exists [], ms. auto. Qed.
+
 Theorem driver_operation_is_delivered s c dn e d o :
   one_client s c dn -> cl_in_ctl c = [] -> cl_in_blob c = [] ->
   dget cd_name dn (cl_mirror c) <> None ->
@@ -257,7 +280,7 @@ Theorem network_client_stays_in_sync s c e d o :
   one_client s c (d_name d) -> cl_in_ctl c = [] -> cl_in_blob c = [] ->
   find_dev s e = Some d -> e <> cl_ctl c -> e <> cl_blob c ->
   dev_ok d -> op_typed d o -> net_synced (cl_mirror c) d ->
-  Forall (fun m => is_blob_msg m = false) (pubs (snd (step d o))) ->
+  ctl_then_blob (pubs (snd (step d o))) ->
   exists c',
     sy_cls (sstep s (SDrv e o)) = [c'] /\
     net_synced (cl_mirror c') (fst (step d o)) /\ dev_ok (fst (step d o)) /\
@@ -273,9 +296,7 @@ Proof.
     as (c' & Cls & Mir & J1 & J2 & Fd' & Sr & F1 & F2 & F3).
   exists c'. split; [exact Cls|]. split; [|split; [exact D1|split; [exact Fd'|split; [|repeat split; assumption]]]].
   - exists (feed mi0 (pubs (snd (step d o)))). split; [exact S1|]. split.
-    + rewrite Mir, Em. unfold delivered_stream.
-      rewrite (filter_all (fun m => negb (is_blob_msg m))) by (eapply Forall_impl; [|exact Nb]; intros m Hm; cbn; now rewrite Hm).
-      rewrite (filter_none is_blob_msg _ Nb). cbn [map]. rewrite app_nil_r. unfold feed, wire. apply feed_norm.
+    + rewrite Mir, Em, (delivered_stream_ordered _ Nb). unfold feed, wire. apply feed_norm.
     + rewrite N1. apply feed_known; [exact K0|exact Ab].
   - rewrite N1. destruct O as [A B C0 Dd E F]. constructor; rewrite ?Sr, ?F1, ?F2, ?F3; auto.
 Qed.
@@ -284,7 +305,7 @@ Qed.
 Fixpoint quiet_ops (d : dev) (ops : list dop) : Prop :=
   match ops with
   | [] => True
-  | o :: r => op_typed d o /\ Forall (fun m => is_blob_msg m = false) (pubs (snd (step d o))) /\ quiet_ops (fst (step d o)) r
+  | o :: r => op_typed d o /\ ctl_then_blob (pubs (snd (step d o))) /\ quiet_ops (fst (step d o)) r
   end.
 
 Theorem network_client_history ops : forall s c e d,
